@@ -315,6 +315,7 @@ func Parallel(fs ...func()) {
 }
 func Scheduler(budget int) {}
 
-func Snapshot(ptr interface{}) interface{}  { notNative("Snapshot"); return nil }
-func SameAs(snapshot, ptr interface{}) bool { notNative("SameAs"); return false }
-func Quiesce()                              { notNative("Quiesce") }
+func Snapshot(ptr interface{}) interface{}   { notNative("Snapshot"); return nil }
+func SameAs(snapshot, ptr interface{}) bool  { notNative("SameAs"); return false }
+func Quiesce()                               { notNative("Quiesce") }
+func OmitAVP(msg interface{}, member string) { notNative("OmitAVP") }
